@@ -212,7 +212,12 @@ def run(tier):
              "units": [{"file": "pre.star", "src": PRELUDE, "evals": evals, "freeze": i % 3 == 0, "snapshot": "all" if i % 3 == 0 else None}]}
         cases.append(c)
         files_of[c["id"]] = dict([("pre.star", PRELUDE), ("probe.star", PROBE)] + [(e["file"], e["src"]) for e in evals])
-    flavors = [("dbg", ncases)] if tier == "quick" else [("dbg", ncases), ("rel", ncases), ("asan", 300)]
+    # the witness of the open known finding is always part of the workload, so that it is re-observed on every run
+    kf = {"id": "h_known_debug", "cfg": {"dialect": "internal", "probe": PROBE},
+          "units": [{"file": "pre.star", "src": PRELUDE, "evals": [{"src": "_r = 1 + 1\n", "file": "e0.star"}, {"src": "debug(SELF_L)\n", "file": "e1.star"}]}]}
+    cases.append(kf)
+    files_of[kf["id"]] = {"pre.star": PRELUDE, "probe.star": PROBE, "e0.star": "_r = 1 + 1\n", "e1.star": "debug(SELF_L)\n"}
+    flavors = [("dbg", len(cases))] if tier == "quick" else [("dbg", len(cases)), ("rel", len(cases)), ("asan", 300)]
     st = {"items": 0, "ok": 0, "err": 0, "located_errors": 0, "no_span": 0, "probes": 0, "kinds": {}}
     distinct = set()
     for flavor, nf in flavors:
